@@ -27,6 +27,8 @@ exactly `Spec.TieFreeFrom` read on exact means.
   and the margin holds along `s₁`, then `s₁` and `s₂` merge THE SAME LABELS at every step.
 * `C06_average_rounded_sizes_unique`   … and report the same sizes.
 * `C06_average_rounded_unique`         both together: `(c1, c2, size)` agree at every position.
+* `C06_average_rounded_margin_of_labAgree`  the margin is a property of the input and of the LABEL sequence of a run:
+  it transfers between well-formed lists that merge the same labels (so it can be certified on any one of them).
 * `C06_average_rounded_reference`      the same against an EXACT-arithmetic greedy reference
   (`AvgGreedyUpTo D 0 n ref`: every step merges an exact minimiser of the mean — what an independently
   written naive clustering in exact arithmetic returns): exact-greedy implies greedy up to every `u`
@@ -215,6 +217,27 @@ theorem C06_average_rounded_reference {D : Nat → Nat → K} {u : K} {n : Nat}
     ∀ i : Nat, (s[i]?).map (fun s : Step α => (s.c1, s.c2, s.size)) =
       (ref[i]?).map (fun s : Step α => (s.c1, s.c2, s.size)) :=
   C06_average_rounded_unique wf wfr m (avgGreedyUpTo_mono hu0 hu1 g)
+
+/-- The margin is a property of the input and of the LABEL sequence of the run. -/
+theorem C06_average_rounded_margin_of_labAgree {D : Nat → Nat → K} {u : K} {n : Nat} {s₁ s₂ : List (Step α)}
+    (wf₁ : WellFormed n s₁) (wf₂ : WellFormed n s₂) (h : ∀ i, LabAgree i s₁ s₂)
+    (m : AvgMarginAlong D u n s₁) : AvgMarginAlong D u n s₂ := by
+  intro i b hb p q hp hq hpq hne
+  obtain ⟨a, ha, e1, e2⟩ := (h (i + 1)).symm.get (Nat.lt_succ_self i) hb
+  have hp' := presentBefore_lab (h i).symm p hp
+  have hq' := presentBefore_lab (h i).symm q hq
+  have hm := m i a ha p q hp' hq' hpq (by rw [e1, e2]; exact hne)
+  have ob := wf₂.ordered i b hb
+  have hil : i < s₁.length := (List.getElem?_eq_some_iff.mp ha).1
+  have hlen : s₂.length = s₁.length := by rw [wf₂.len, wf₁.len]
+  have hord : ∀ (k : Nat) (s : Step α), k < i → s₁[k]? = some s → s.c1 < s.c2 ∧ s.c2 < n + k :=
+    fun k s _ hs => wf₁.ordered k s hs
+  have hlv : ∀ l, l < n + i → Spec.leaves n s₁ s₁.length l = Spec.leaves n s₂ s₂.length l :=
+    fun l hl => leaves_lab (h i) hord s₁.length s₂.length l hl (by omega) (by omega)
+  simp only at hm ⊢
+  rw [e1, e2, hlv b.c1 (by omega), hlv b.c2 (by omega), hlv p hp.1, hlv q hq.1] at hm
+  exact hm
+
 
 /-! ## Heights -/
 
